@@ -208,3 +208,34 @@ package rosmar
 //@   ensures [C08:writeWithMeta.event]           result == nil ==> lenlist(posted) == 1 && posted[0] == eventOf(key, r2) && postsAfterCommit()
 //@   ensures [C12:writeWithMeta.lastcas]         result == nil ==> collLast(c.id) >= newCas
 //@   ensures [C20:writeWithMeta.unlocked]        any: nolocks()
+
+// ---------------------------------------------------------------------------------------------------------------
+// expiry_manager.go  (ExpInv: whenever nextExp != 0 one timer is armed for it; guarded by e.mutex)
+
+//@ fn (*expiryManager)._setNext
+//@   ensures [C14:setNext.recorded]  *e.nextExp == exp
+//@   ensures [C14:setNext.cleared]   exp == 0 ==> e.timer == nil && count("timer.arm") == 0
+//@   ensures [C14,C20:setNext.armed] exp != 0 ==> e.timer != nil && count("timer.arm") == 1 && count("timer.stop") == 0
+//@   ensures [C14,C20:setNext.one-timer] old(e.timer) != nil ==> count("timer.new") == 0
+//@   mustfail [C14:setNext.mf] exp == 0
+//@
+//@ fn (*expiryManager)._scheduleExpirationAtOrBefore
+//@   let cur = old(*e.nextExp)
+//@   ensures [C14:schedule.min]    *e.nextExp == (if exp != 0 && (cur == 0 || exp < cur) then exp else cur)
+//@   ensures [C14:schedule.covers] exp != 0 ==> *e.nextExp != 0 && *e.nextExp <= exp
+//@   ensures [C14:schedule.armed]  *e.nextExp != cur ==> count("timer.arm") == 1 && count("timer.stop") == 0
+//@   ensures [C14:schedule.quiet]  *e.nextExp == cur ==> count("timer.arm") == 0 && count("timer.stop") == 0
+//@
+//@ fn (*expiryManager).scheduleExpirationAtOrBefore
+//@   let cur = old(*e.nextExp)
+//@   ensures [C14:scheduleL.covers]   exp != 0 ==> *e.nextExp != 0 && *e.nextExp <= exp
+//@   ensures [C14:scheduleL.min]      *e.nextExp == (if exp != 0 && (cur == 0 || exp < cur) then exp else cur)
+//@   ensures [C20:scheduleL.unlocked] any: nolocks()
+//@
+//@ fn (*expiryManager).stop
+//@   ensures [C20:expstop.stops]    e.timer != nil ==> count("timer.stop") == 1
+//@   ensures [C20:expstop.unlocked] any: nolocks()
+//@   ensures [C14:expstop.noarm]    count("timer.arm") == 0
+//@
+//@ fn (*expiryManager).runExpiry
+//@   ensures [C20:runExpiry.unlocked] any: nolocks()
